@@ -140,6 +140,17 @@ CLAIMED['C19'] = (
     'enforcement of the bounds themselves is C07; known findings F13 (30 names), F20 (Maximum Drawdown max)',
     'Lean 4 kernel decision over regenerated finite tables (translator from source)')
 
+CLAIMED['C08'] = (
+    'Lean refinement proof over the client state machine (cwd, argv, cache, files; operations request / rewrite / chdir), for every finite history '
+    'incl. failing requests and rewrites between calls: the outputs of the (repaired) client equal those of a cache-free, history-free specification '
+    '(every result is the simulation of the file content at the moment of the request), argv is never changed, cwd is moved only by the caller\'s own '
+    'chdir, the cache only holds results of its key\'s content, lru_cache-style memo tables are transparent; kernel-evaluated witnesses that the client '
+    'of the pinned tree violated both clauses (F1, F2, both fixed in /repo). Tied to the code by seeded histories run in one process against the real '
+    'client and compared op by op with the Lean machine, `sim` tabulated from fresh-subprocess runs under another hash seed and directory.',
+    'kernel + propext/Classical.choice/Quot.sound; "the simulator is a function of the file content" is tested, not proved (it is the tie); OS, CPython '
+    'hashing, memory / threads / logging handlers not modelled (DESIGN §5)',
+    'Lean 4 refinement proof (state machine vs specification, induction over histories) + history differential')
+
 PENDING_REASON = 'check not built yet in this commit (work in progress; see DESIGN.md §9 for the order)'
 
 
